@@ -25,7 +25,7 @@ Fixpoint rmap {A B} (f : A -> res B) (l : list A) : res (list B) :=
 Definition fixed_D23 : bool := true.   (* tensor index on the stack dim replaces member objects *)
 Definition fixed_D26 : bool := true.   (* transpose across the stack dim: single member transpose instead of a rotation *)
 Definition fixed_D13 : bool := true.   (* _lazy_cat(out=): running offset doubles; writes go to a dense copy *)
-Definition fixed_D36 : bool := false.  (* _split_index: split_dim of a mask on / across the stack dim ignores the Nones before it
+Definition fixed_D36 : bool := true.  (* _split_index: split_dim of a mask on / across the stack dim ignores the Nones before it
                                           (repair fixes/C08/C08-D36.diff: "+ num_none"; flip to true when it lands in /repo) *)
 (* the dim of the VALUE along which __setitem__ splits it for the rows of a mask: pos = the dim of self the mask starts on *)
 Definition split_dim_of (fixed : bool) (pos num_single num_none : Z) : Z :=
